@@ -12,7 +12,7 @@ META = {
     "id": "C19",
     "coq_targets": ["Props/C19.vo", "Extract/Extract_C19.vo"],
     "technique": "Coq proof (induction over the frame list; fold invariant for the by-track painter) + differential correspondence of the extracted model with the implementation",
-    "level_text": "Theorems C19_unique_partition / C19_unique_global / C19_unique_multiseg / C19_by_track / C19_by_track_same_label hold for every label array of every size (unbounded Z labels); the hand-written model is tied to /repo by running the extracted model and the implementation on the same generated arrays and comparing the outputs element by element.",
+    "level_text": "Theorems C19_unique_partition / C19_unique_global / C19_unique_multiseg / C19_by_track / C19_by_track_same_label hold for every label array of every size (unbounded Z labels); the hand-written model is tied to /repo by running the extracted model and the implementation on the same generated arrays and comparing the outputs element by element. C19_unique_is_generated / C19_unique_multiseg_is_generated / C19_by_track_is_generated: the three model functions equal, for all arguments, the code translated on every run from the current _segmentation_utils.py (Gen/LabelUtils_gen.v; fail-closed translator over the numpy combinators of Model/NpRt.v).",
     "level_note": "Trusted: Coq kernel, extraction (ExtrOcamlBasic), OCaml driver, Python harness. Modelled not verified: numpy elementwise ops and reshape, networkx weakly_connected_components (its answer is an input of the model; the theorem assumes only that (time, seg id) pairs are distinct), uint64 wrap-around is out of scope (labels are unbounded Z in the model).",
     "design_ref": "DESIGN.md section 9 (C19)",
     "assumptions": ["labels are non-negative and small enough that adding the running maximum does not wrap in uint64",
@@ -120,6 +120,15 @@ def oracle_by_track(g, seg, out):
         if (out[t][seg[t] == 0] != 0).any() and (t, 0) not in claimed:
             return "background of frame %d painted" % t
     return None
+
+
+def pre_build(ctx):
+    # re-translate utils/_segmentation_utils.py (Gen/LabelUtils_gen.v, tied by Proofs/LabelUtilsTie.v)
+    import translate_numpy_utils
+
+    ok, msg = translate_numpy_utils.regenerate_labels()
+    if not ok:
+        raise RuntimeError("translator refused _segmentation_utils.py: %s" % msg)
 
 
 def run(ctx):
